@@ -170,7 +170,8 @@ fn observe(ctx: &Ctx, rep: &mut Report, index: u64, text: &str, source: &str) {
 
 fn random_structured(rng: &mut Rng) -> String {
     let n = 1 + rng.usize(60);
-    let nums = [10u64, 10, 20, 20, 30, 40, 5, 18446744073709551615];
+    // (with the numbers at which a table sized for the classic Applesoft range 0..63999 / 0..65535 begins and ends)
+    let nums = [10u64, 10, 20, 20, 30, 40, 5, 18446744073709551615, 0, 63998, 63999, 64000, 65535, 65536, 4294967295, 4294967296];
     let mut lines = vec![];
     for _ in 0..n {
         let k = match rng.below(10) {
